@@ -27,6 +27,10 @@ var (
 	// fresh object. When false Get is deterministic LIFO.
 	PoolChoices bool
 
+	// PoolGets / PoolReuses count, per execution, the Pool.Get calls and how
+	// many of them were answered with a previously freed object.
+	PoolGets, PoolReuses int
+
 	// PoolPutHook, when set, is called with every object handed to Put while
 	// the scheduler is active (harnesses poison freed buffers with it).
 	PoolPutHook func(x any)
@@ -56,6 +60,21 @@ func ResetPools() {
 		}
 		p.n = 0
 	}
+	PoolGets, PoolReuses = 0, 0
+}
+
+// DropPools empties every controlled pool in the middle of an execution (what
+// a garbage collection does to sync.Pool) without touching the counters.
+//
+//go:norace
+func DropPools() {
+	for i := 0; i < npools; i++ {
+		p := pools[i]
+		for j := 0; j < p.n; j++ {
+			p.free[j] = nil
+		}
+		p.n = 0
+	}
 }
 
 // Take passes a scheduling point and removes an entry from the free list
@@ -65,6 +84,7 @@ func ResetPools() {
 func (p *PoolState) Take() *PoolEntry {
 	p.register()
 	point(opNone, nil)
+	PoolGets++
 	if p.n == 0 {
 		return nil
 	}
@@ -75,6 +95,7 @@ func (p *PoolState) Take() *PoolEntry {
 	if c == p.n {
 		return nil
 	}
+	PoolReuses++
 	idx := p.n - 1 - c
 	e := p.free[idx]
 	for j := idx; j < p.n-1; j++ {
